@@ -27,6 +27,8 @@ def gen_spec(rng, max_depth=6, bases=("sync", "pool"), types=LAYER_TYPES, vt=Fal
         elif t == "retry":
             L["max_attempts"] = rng.choice([1, 2, 3, 4])
             L["base"] = rng.choice(["Exception", "UserError", "UserErrorA"])
+            if rng.random() < 0.15:
+                L["policy"] = "sleep_raises"  # a policy that agrees to retry but fails when asked how long to wait
         elif t == "throttle":
             L["count"] = rng.choice([1, 2, 3, None, "callable"])
             if L["count"] in (1, 2, 3) and rng.random() < 0.4:
@@ -103,6 +105,16 @@ def build(ctx, spec, name=None, base_executor=None):
             if fk != "none":
                 fn = b.fns["fmap%d" % k] = Recorded("fmap%d" % k, make_flat_fn(fk, k))
             cur = _with(cur, "flat_map", fn)
+        elif t == "retry" and L.get("policy") == "sleep_raises":
+            ME = instr.ME
+
+            class SleepRaises(ME.retry.RetryPolicy):
+                def should_retry(self, attempt, future):
+                    return future.exception() is not None
+
+                def sleep_time(self, attempt, future):
+                    raise PolicyBoom("no Retry-After on %r" % (future.exception(),))
+            cur = _with(cur, "retry", SleepRaises())
         elif t == "retry":
             cur = _with(cur, "retry", max_attempts=L.get("max_attempts", 3), sleep=L.get("sleep", 0),
                         exponent=L.get("exponent", 2.0), max_sleep=L.get("max_sleep", 120),
@@ -190,6 +202,10 @@ def _parity(x):
     return isinstance(x, int) and x % 2 == 1
 
 
+class PolicyBoom(Exception):
+    """raised by a scripted retry policy"""
+
+
 class PollBoom(Exception):
     """raised by a scripted poll function"""
 
@@ -266,6 +282,9 @@ def model(spec, script):
             return base()
         L = spec["layers"][j]
         t, k = L["t"], L["k"]
+        if t == "retry" and L.get("policy") == "sleep_raises":
+            # the policy fails: the library stops retrying, the attempt's outcome stands
+            return level(j - 1)
         if t == "retry":
             attempts = 0
             while True:
